@@ -594,7 +594,10 @@ def run(rep, tier):
         facts = get_facts(cfg)
         rep.unit(facts)
         clause_a(facts, rep, tier)
-        c01_number.check(facts, rep)
+        try:
+            c01_number.check(facts, rep)
+        except AnalysisBroken as ex:
+            rep.broken.append(str(ex))        # the remaining clauses (and the evaluation of parseNumber) still run
         clause_c(facts, rep)
         sent = sentinel_bytes(facts)
         w = c02.widest_load(facts)
@@ -640,6 +643,17 @@ def run(rep, tier):
         from .. import ws_table
         ws_table.check(facts3, rep)
     rep.extra['traces_validated_against_impl'] = 0
+    # the number sub-grammar: parseNumber evaluated on valid number texts (must be accepted whole, with their value) and
+    # on texts where a digit is required and missing (must be rejected) - sv/numvalue.py, shared with C04; the typestate
+    # rules on parseNumber's CFG (E6.number, E2.digit-run) are decided together with it
+    from .. import numvalue
+    try:
+        numvalue.clause(get_facts('K1'), rep, tier)
+    except AnalysisBroken as ex:
+        rep.broken.append(str(ex))
+    for r_ in ('E6.number', 'E2.digit-run'):
+        rep.corroborate(r_, 'E5.number-value')
+    rep.corroborate_floor('C01.b:', 'E5.number-value')
     rep.trust('clang 14 parser/template instantiation/CFG builder/constant evaluator',
               'hand-written RFC 8259 reference transducer in sv/e6_vpa.py (ref_step)',
               'contract of scalar sub-parsers: consume one well-formed lexeme of their kind or set the error field')
